@@ -61,6 +61,11 @@ def gen_comp(rng, name="comp"):
             bn += 1
             tags[f"build_{bn}_release_10_20_success"] = cid
             versions.append((cid, (10, 20, bn)))
+            if rng.random() < 0.15:
+                # the same commit was built once more (second build tag, another number)
+                bn += 1
+                tags[f"build_{bn}_release_10_20_success"] = cid
+                versions.append((cid, (10, 20, bn)))
     heads = {"origin/release/10.20": m}
     if rng.random() < 0.5:
         f = rng.randint(1, m)
@@ -302,10 +307,16 @@ def judge_b(ctx, deps, case):
         repos[nm] = cls(nm, FakeGit(), 'origin')
     cyc = has_cycle(deps)
     budget = LineBudget(STEP_BOUND)
+    collection_cls = ReposCollection
+    if case.get("registry"):
+        # a collection subclass that registers plain repository types for (some of) the ids; the
+        # objects actually supplied are what counts
+        collection_cls = type("VfCollection", (ReposCollection,),
+                              {'_REPOS_TYPES': {nm: ProjectRepo for nm in case["registry"]}})
     try:
         try:
             with budget:
-                rc = ReposCollection(repos)
+                rc = collection_cls(repos)
         finally:
             ctx.maxi("max_lines_executed_by_dependency_sort", budget.lines)
     except StepBoundExceeded:
@@ -344,7 +355,8 @@ def run_shard(ctx):
         rng = ctx.rng(i)
         if i % 3 == 2:
             deps = gen_deps(rng)
-            judge_b(ctx, deps, {"kind": "deps", "deps": deps})
+            registry = [nm for nm in deps if rng.random() < 0.6] if rng.random() < 0.3 else []
+            judge_b(ctx, deps, {"kind": "deps", "deps": deps, "registry": registry})
             continue
         comp, versions = gen_comp(rng)
         if not versions:
